@@ -7,6 +7,7 @@ import CkbVerif.Lemmas.HashBlockBytes
 import CkbVerif.Lemmas.HashView
 import CkbVerif.Lemmas.HashCbmtArray
 import CkbVerif.Lemmas.HashProofTop
+import CkbVerif.Lemmas.HashProofFuel
 import CkbVerif.Lemmas.MolSize
 /-!
 # C15 — wire and storage encodings round-trip losslessly and hashes commit to content
@@ -559,6 +560,14 @@ cannot panic; the one-leaf case with a repeated index does (`example` below, rep
 theorem build_merkle_proof_panics_only_on_one_leaf {α : Type} (le : α → α → Bool) (merge : α → α → α) (zero : α)
     (leaves : List α) (idx : List Nat) (hn : 2 ≤ leaves.length) : buildMerkleProof le merge zero leaves idx ≠ .panic :=
   buildMerkleProof_no_panic le merge zero leaves idx hn
+
+/-- **the model's loops are the unbounded Rust loops**: `buildLoop` / `rootLoop` recurse on a fuel, the code does not;
+every iteration strictly decreases Σ(index+1), and with any fuel ≥ the `qFuel` / `pFuel` the model uses the result is
+the same — no answer of `buildProof` / `proofRoot` is ever caused by the fuel running out. -/
+theorem merkle_loops_fuel_irrelevant {α : Type} (merge : α → α → α) (zero : α) (nodes : List α) :
+    (∀ (q : List Nat) (f : Nat), qFuel q ≤ f → buildLoop zero nodes f q = buildLoop zero nodes (qFuel q) q) ∧
+    (∀ (q : List (Nat × α)) (lem : List α) (f : Nat), pFuel q ≤ f → rootLoop merge f q lem = rootLoop merge (pFuel q) q lem) :=
+  ⟨fun q f h => buildLoop_fuel_irrelevant zero nodes q f h, fun q lem f h => rootLoop_fuel_irrelevant merge q lem f h⟩
 
 /-- `MerkleProof::verify` accepts the honest proof -/
 theorem merkle_proof_verifies {α : Type} [DecidableEq α] (le : α → α → Bool)
